@@ -497,6 +497,213 @@ theorem hLoad_spec (s : HState κ ι π ν) (f : List (Nat × DescV) × List (Na
       have := hbm x (itemRefs_itemOfId hx)
       omega
 
+theorem view_of_lookup_msg {h : Heap π ν} {r : Ref} {c : Bool} {dl ld : List Ref} {t : Ref} {p : π} {ns : List ν} {w : Bool}
+    (e : h.lookup r = some (.msg c dl ld t p ns w)) : view h r = some (.msg c dl ld t p ns w) := by
+  simp [view, e]
+
+theorem zip_range'_range' (a b n : Nat) :
+    (List.range' a n).zip (List.range' b n) = (List.range n).map fun i => (a + i, b + i) := by
+  rw [List.range'_eq_map_range, List.range'_eq_map_range, List.zip_map']
+
+/-- items made from the Table B map of a cached group, read in a heap that keeps the group -/
+theorem getDesc_bm_keeps {s s' : HState κ ι π ν} {g : Ref} (hg : ∀ y : Nat, y ∈ (groupB s.heap g).map (·.2) → y < s.next)
+    (hk : Keeps s s') :
+    ((groupB s.heap g).map fun p => (p.1, getDesc s'.heap p.2)) = (derefGroup s.heap g).b := by
+  unfold derefGroup
+  apply List.map_congr_left
+  intro p hp
+  rw [getDesc_congr (look_of_view (hk.2 p.2 (hg p.2 (List.mem_map.2 ⟨p, hp, rfl⟩))))]
+
+/-- allocation of a decoded message -/
+theorem hAllocMsg_spec (s : HState κ ι π ν) (g : Ref) (tids : List Nat)
+    (x : Bool × Nat × (Nat → List Sel × List (Nat × Nat)) × π)
+    (hg : ∀ y : Nat, y ∈ (groupB s.heap g).map (·.2) → y < s.next) :
+    Keeps s (hAllocMsg s g tids x).1 ∧ (hAllocMsg s g tids x).1.tables = s.tables ∧
+    (hAllocMsg s g tids x).1.compiled = s.compiled ∧ (hAllocMsg s g tids x).1.objs = s.objs ∧
+    derefMsg (hAllocMsg s g tids x).1.heap (hAllocMsg s g tids x).2 =
+      { data := { compressed := x.1, templ := tids.map (lookupD (derefGroup s.heap g).b),
+                  subsets := subsetsOf (derefGroup s.heap g) x.1 x.2.1 x.2.2.1, payload := x.2.2.2 },
+        nodes := [], isWired := false } ∧
+    (∀ y : Nat, y ∈ footOf (hAllocMsg s g tids x).1.heap (hAllocMsg s g tids x).2 → y < (hAllocMsg s g tids x).1.next) ∧
+    s.next ≤ (hAllocMsg s g tids x).2 := by
+  obtain ⟨c, n, f, pl⟩ := x
+  obtain ⟨bm, hbm⟩ : ∃ b, b = groupB s.heap g := ⟨_, rfl⟩
+  obtain ⟨s0, hs0⟩ : ∃ z, z = allocMany s [HObj.lst (tids.map (itemOfId bm))] := ⟨_, rfl⟩
+  have n0 : s0.next = s.next + 1 := by simp [hs0, allocMany]
+  have k0 : Keeps s s0 := hs0 ▸ keeps_alloc s _
+  have hbr : ∀ y : Nat, y ∈ bm.map (·.2) → y < s.next := hbm ▸ hg
+  -- reading items of the Table B map in any heap that keeps `s`
+  have rd : ∀ (s' : HState κ ι π ν), Keeps s s' → ∀ id, derefItem s'.heap (itemOfId bm id) = lookupD (derefGroup s.heap g).b id := by
+    intro s' hk id
+    rw [derefItem_itemOfId, hbm, getDesc_bm_keeps hg hk]
+  have rs : ∀ (s' : HState κ ι π ν), Keeps s s' → ∀ sel, derefItem s'.heap (itemOfSel bm sel) = resolveSel (derefGroup s.heap g) sel := by
+    intro s' hk sel
+    cases sel with
+    | tab id => exact rd s' hk id
+    | pseudo d => rfl
+  cases c with
+  | true =>
+    obtain ⟨s1, hs1⟩ : ∃ z, z = allocMany s0 [HObj.lst ((f 0).1.map (itemOfSel bm)), HObj.links (f 0).2] := ⟨_, rfl⟩
+    obtain ⟨s2, hs2⟩ : ∃ z, z = allocMany s1 [HObj.msg true (List.replicate n s0.next) (List.replicate n (s0.next + 1)) s.next pl [] false] := ⟨_, rfl⟩
+    have e1 : (hAllocMsg s g tids (true, n, f, pl)).1 = s2 := by subst hs2 hs1 hs0 hbm; rfl
+    have e2 : (hAllocMsg s g tids (true, n, f, pl)).2 = s1.next := by subst hs2 hs1 hs0 hbm; rfl
+    have n1 : s1.next = s.next + 3 := by simp [hs1, allocMany, n0]
+    have n2 : s2.next = s.next + 4 := by simp [hs2, allocMany, n1]
+    have k1 : Keeps s0 s1 := hs1 ▸ keeps_alloc s0 _
+    have k2 : Keeps s1 s2 := hs2 ▸ keeps_alloc s1 _
+    have kk : Keeps s s2 := (k0.trans k1).trans k2
+    have lm : s2.heap.lookup s1.next = some (HObj.msg true (List.replicate n s0.next) (List.replicate n (s0.next + 1)) s.next pl [] false) := by
+      have := lookup_alloc_ge [HObj.msg true (List.replicate n s0.next) (List.replicate n (s0.next + 1)) s.next pl [] false] s1.heap s1.next 0 (by simp)
+      simpa [hs2, allocMany] using this
+    have l12 : ∀ r : Nat, r < s1.next → s2.heap.lookup r = s1.heap.lookup r := by
+      intro r hr
+      have := lookup_alloc_lt [HObj.msg true (List.replicate n s0.next) (List.replicate n (s0.next + 1)) s.next pl [] false] s1.heap r s1.next hr
+      simpa [hs2, allocMany] using this
+    have ll : s2.heap.lookup s0.next = some (HObj.lst ((f 0).1.map (itemOfSel bm))) := by
+      rw [l12 _ (by omega)]
+      have := lookup_alloc_ge [HObj.lst ((f 0).1.map (itemOfSel bm)), HObj.links (f 0).2] s0.heap s0.next 0 (by simp)
+      simpa [hs1, allocMany] using this
+    have lk : s2.heap.lookup (s0.next + 1) = some (HObj.links (f 0).2) := by
+      rw [l12 _ (by omega)]
+      have := lookup_alloc_ge [HObj.lst ((f 0).1.map (itemOfSel bm)), HObj.links (f 0).2] s0.heap s0.next 1 (by simp)
+      simpa [hs1, allocMany] using this
+    have lt : s2.heap.lookup s.next = some (HObj.lst (tids.map (itemOfId bm))) := by
+      rw [l12 _ (by omega)]
+      have a : s1.heap.lookup s.next = s0.heap.lookup s.next := by
+        have := lookup_alloc_lt [HObj.lst ((f 0).1.map (itemOfSel bm)), HObj.links (f 0).2] s0.heap s.next s0.next (by omega)
+        simpa [hs1, allocMany] using this
+      rw [a]
+      have := lookup_alloc_ge [HObj.lst (tids.map (itemOfId bm))] s.heap s.next 0 (by simp)
+      simpa [hs0, allocMany] using this
+    have git : getItems s2.heap s.next = tids.map (itemOfId bm) := by unfold getItems; rw [look_of_lookup_lst lt]
+    have gil : getItems s2.heap s0.next = (f 0).1.map (itemOfSel bm) := by unfold getItems; rw [look_of_lookup_lst ll]
+    have gt : getList s2.heap s.next = tids.map (lookupD (derefGroup s.heap g).b) := by
+      unfold getList; rw [git, List.map_map]
+      exact List.map_congr_left (fun id _ => rd s2 kk id)
+    have gl : getList s2.heap s0.next = (f 0).1.map (resolveSel (derefGroup s.heap g)) := by
+      unfold getList; rw [gil, List.map_map]
+      exact List.map_congr_left (fun sel _ => rs s2 kk sel)
+    have gk : getLinks s2.heap (s0.next + 1) = (f 0).2 := by unfold getLinks; rw [look_of_lookup_links lk]
+    refine ⟨e1 ▸ kk, by rw [e1, hs2, hs1, hs0]; rfl, by rw [e1, hs2, hs1, hs0]; rfl, by rw [e1, hs2, hs1, hs0]; rfl, ?_, ?_, by rw [e2]; omega⟩
+    · rw [e1, e2]
+      unfold derefMsg
+      rw [view_of_lookup_msg lm]
+      simp only [List.zip_replicate', List.map_replicate, gt, gl, gk, subsetsOf, if_true]
+    · rw [e1, e2]
+      intro y hy
+      have hmi : msgInner s2.heap s1.next = s.next :: List.replicate n s0.next ++ List.replicate n (s0.next + 1) ++
+          (s.next :: List.replicate n s0.next).flatMap fun l => itemRefs (getItems s2.heap l) := by
+        unfold msgInner; rw [view_of_lookup_msg lm]
+      have hl0 : look s2.heap s1.next = none := by simp [look, view_of_lookup_msg lm]
+      unfold footOf at hy
+      rw [hmi] at hy
+      have e_it : getItems s2.heap s1.next = [] := by unfold getItems; rw [hl0]
+      have e_b : groupB s2.heap s1.next = [] := by unfold groupB; rw [hl0]
+      have e_d : groupD s2.heap s1.next = [] := by unfold groupD; rw [hl0]
+      rw [e_it, e_b, e_d] at hy
+      simp only [itemRefs, List.map_nil, List.flatMap_nil, List.append_nil, List.nil_append, List.mem_cons,
+        List.mem_append, List.mem_replicate, List.mem_flatMap] at hy
+      rcases hy with rfl | (((rfl | ⟨_, rfl⟩) | ⟨_, rfl⟩) | ⟨(l : Nat), hl, hy⟩)
+      · omega
+      · omega
+      · omega
+      · omega
+      · rcases hl with rfl | ⟨_, rfl⟩
+        · rw [git] at hy
+          have := hbr y (itemRefs_itemOfId hy); omega
+        · rw [gil] at hy
+          have := hbr y (itemRefs_itemOfSel hy); omega
+  | false =>
+    obtain ⟨s1, hs1⟩ : ∃ z, z = allocMany s0 ((List.range n).map fun i => HObj.lst ((f i).1.map (itemOfSel bm))) := ⟨_, rfl⟩
+    obtain ⟨s2, hs2⟩ : ∃ z, z = allocMany s1 ((List.range n).map fun i => (HObj.links (f i).2 : HObj π ν)) := ⟨_, rfl⟩
+    obtain ⟨s3, hs3⟩ : ∃ z, z = allocMany s2 [HObj.msg false (List.range' s0.next n) (List.range' s1.next n) s.next pl [] false] := ⟨_, rfl⟩
+    have e1 : (hAllocMsg s g tids (false, n, f, pl)).1 = s3 := by subst hs3 hs2 hs1 hs0 hbm; rfl
+    have e2 : (hAllocMsg s g tids (false, n, f, pl)).2 = s2.next := by subst hs3 hs2 hs1 hs0 hbm; rfl
+    have n1 : s1.next = s.next + 1 + n := by simp [hs1, allocMany, n0]
+    have n2 : s2.next = s.next + 1 + n + n := by simp [hs2, allocMany, n1]
+    have n3 : s3.next = s2.next + 1 := by simp [hs3, allocMany]
+    have k1 : Keeps s0 s1 := hs1 ▸ keeps_alloc s0 _
+    have k2 : Keeps s1 s2 := hs2 ▸ keeps_alloc s1 _
+    have k3 : Keeps s2 s3 := hs3 ▸ keeps_alloc s2 _
+    have kk : Keeps s s3 := ((k0.trans k1).trans k2).trans k3
+    have lm : s3.heap.lookup s2.next = some (HObj.msg false (List.range' s0.next n) (List.range' s1.next n) s.next pl [] false) := by
+      have := lookup_alloc_ge [HObj.msg false (List.range' s0.next n) (List.range' s1.next n) s.next pl [] false] s2.heap s2.next 0 (by simp)
+      simpa [hs3, allocMany] using this
+    have l23 : ∀ r : Nat, r < s2.next → s3.heap.lookup r = s2.heap.lookup r := by
+      intro r hr
+      have := lookup_alloc_lt [HObj.msg false (List.range' s0.next n) (List.range' s1.next n) s.next pl [] false] s2.heap r s2.next hr
+      simpa [hs3, allocMany] using this
+    have l12 : ∀ r : Nat, r < s1.next → s2.heap.lookup r = s1.heap.lookup r := by
+      intro r hr
+      have := lookup_alloc_lt ((List.range n).map fun i => (HObj.links (f i).2 : HObj π ν)) s1.heap r s1.next hr
+      simpa [hs2, allocMany] using this
+    have l01 : ∀ r : Nat, r < s0.next → s1.heap.lookup r = s0.heap.lookup r := by
+      intro r hr
+      have := lookup_alloc_lt ((List.range n).map fun i => HObj.lst ((f i).1.map (itemOfSel bm))) s0.heap r s0.next hr
+      simpa [hs1, allocMany] using this
+    have lk : ∀ i, i < n → s3.heap.lookup (s1.next + i) = some (HObj.links (f i).2) := by
+      intro i hi
+      rw [l23 _ (by omega)]
+      have := lookup_alloc_ge ((List.range n).map fun i => (HObj.links (f i).2 : HObj π ν)) s1.heap s1.next i (by simpa using hi)
+      simpa [hs2, allocMany, hi] using this
+    have ll : ∀ i, i < n → s3.heap.lookup (s0.next + i) = some (HObj.lst ((f i).1.map (itemOfSel bm))) := by
+      intro i hi
+      rw [l23 _ (by omega), l12 _ (by omega)]
+      have := lookup_alloc_ge ((List.range n).map fun i => HObj.lst ((f i).1.map (itemOfSel bm))) s0.heap s0.next i (by simpa using hi)
+      simpa [hs1, allocMany, hi] using this
+    have lt : s3.heap.lookup s.next = some (HObj.lst (tids.map (itemOfId bm))) := by
+      rw [l23 _ (by omega), l12 _ (by omega), l01 _ (by omega)]
+      have := lookup_alloc_ge [HObj.lst (tids.map (itemOfId bm))] s.heap s.next 0 (by simp)
+      simpa [hs0, allocMany] using this
+    have git : getItems s3.heap s.next = tids.map (itemOfId bm) := by unfold getItems; rw [look_of_lookup_lst lt]
+    have gil : ∀ i, i < n → getItems s3.heap (s0.next + i) = (f i).1.map (itemOfSel bm) := by
+      intro i hi; unfold getItems; rw [look_of_lookup_lst (ll i hi)]
+    have gt : getList s3.heap s.next = tids.map (lookupD (derefGroup s.heap g).b) := by
+      unfold getList; rw [git, List.map_map]
+      exact List.map_congr_left (fun id _ => rd s3 kk id)
+    have gl : ∀ i, i < n → getList s3.heap (s0.next + i) = (f i).1.map (resolveSel (derefGroup s.heap g)) := by
+      intro i hi
+      unfold getList; rw [gil i hi, List.map_map]
+      exact List.map_congr_left (fun sel _ => rs s3 kk sel)
+    have gk : ∀ i, i < n → getLinks s3.heap (s1.next + i) = (f i).2 := by
+      intro i hi; unfold getLinks; rw [look_of_lookup_links (lk i hi)]
+    refine ⟨e1 ▸ kk, by rw [e1, hs3, hs2, hs1, hs0]; rfl, by rw [e1, hs3, hs2, hs1, hs0]; rfl, by rw [e1, hs3, hs2, hs1, hs0]; rfl, ?_, ?_, by rw [e2]; omega⟩
+    · rw [e1, e2]
+      unfold derefMsg
+      rw [view_of_lookup_msg lm]
+      simp only [zip_range'_range', List.map_map, gt, subsetsOf, Bool.false_eq_true, if_false]
+      congr 2
+      apply List.map_congr_left
+      intro i hi
+      have hi' : i < n := List.mem_range.1 hi
+      simp only [Function.comp, gl i hi', gk i hi']
+    · rw [e1, e2]
+      intro y hy
+      have hmi : msgInner s3.heap s2.next = s.next :: List.range' s0.next n ++ List.range' s1.next n ++
+          (s.next :: List.range' s0.next n).flatMap fun l => itemRefs (getItems s3.heap l) := by
+        unfold msgInner; rw [view_of_lookup_msg lm]
+      have hl0 : look s3.heap s2.next = none := by simp [look, view_of_lookup_msg lm]
+      unfold footOf at hy
+      rw [hmi] at hy
+      have e_it : getItems s3.heap s2.next = [] := by unfold getItems; rw [hl0]
+      have e_b : groupB s3.heap s2.next = [] := by unfold groupB; rw [hl0]
+      have e_d : groupD s3.heap s2.next = [] := by unfold groupD; rw [hl0]
+      rw [e_it, e_b, e_d] at hy
+      simp only [itemRefs, List.map_nil, List.flatMap_nil, List.append_nil, List.nil_append, List.mem_cons,
+        List.mem_append, List.mem_flatMap] at hy
+      rcases hy with rfl | (((rfl | hy) | hy) | ⟨(l : Nat), hl, hy⟩)
+      · omega
+      · omega
+      · have := mem_range'_lt hy; omega
+      · have := mem_range'_lt hy; omega
+      · rcases hl with rfl | hl
+        · rw [git] at hy
+          have := hbr y (itemRefs_itemOfId hy); omega
+        · have hr := mem_range'_lt hl
+          have : l = s0.next + (l - s0.next) := by omega
+          rw [this, gil _ (by omega)] at hy
+          have := hbr y (itemRefs_itemOfSel hy); omega
+
 end Proc
 
 end Bufr.Heap
